@@ -63,6 +63,11 @@ func c17SetupWith(elasticityPositive bool) *c17Env {
 		mg := zz.AnyInt64In("maxGas", 0, 1<<62)
 		ctx = ctx.WithConsensusParams(&tmproto.ConsensusParams{Block: &tmproto.BlockParams{MaxGas: mg}})
 		e.limit = big.NewInt(mg)
+		if mg == 0 {
+			// MaxGas = 0 is a valid consensus parameter and means "no limit" too (baseapp's block gas meter, types.BlockGasLimit
+			// and the gas estimation all read it that way): transactions are admitted, so gas is wanted
+			e.limit = new(big.Int).SetUint64(^uint64(0))
+		}
 	}
 	e.ctx = ctx
 	return e
@@ -108,7 +113,8 @@ func c17Ref(e *c17Env, g uint64) (fee *big.Int, ok bool) {
 
 func c17TargetPositive(e *c17Env) bool {
 	// block gas limit >= elasticity, i.e. target T >= 1 (T = 0 makes the real code divide by zero as soon as any gas is wanted;
-	// a block gas limit below the elasticity multiplier admits no transaction at all - stated as outside the bound)
+	// a positive block gas limit below the elasticity multiplier admits no transaction at all - stated as outside the bound.
+	// MaxGas = 0 is not such a case: it means no limit, see c17Setup)
 	return e.limit.Cmp(new(big.Int).SetUint64(uint64(e.params.ElasticityMultiplier))) >= 0
 }
 
